@@ -410,14 +410,14 @@ def ih_clauses(gjson, pres):
     el = {n: d["element"] for n, d in g.nodes(data=True)}
     if any(d["atom_map"] != n for n, d in g.nodes(data=True)):
         return []
-    for n in g.nodes:
-        if el[n] == "H" and (g.degree(n) != 1 or el[next(iter(g[n]))] == "H"):
+    for n in g.nodes:                         # a hydrogen either hangs on one non-hydrogen atom or is alone (no bond at all)
+        if el[n] == "H" and g.degree(n) != 0 and (g.degree(n) != 1 or el[next(iter(g[n]))] == "H"):
             return []
     before = {n: (el[n], d["charge"], d["hcount"] + sum(1 for m in g[n] if el[m] == "H")) for n, d in g.nodes(data=True) if el[n] != "H"}
     heavy_bonds = {frozenset((u, v)): d["order"] for u, v, d in g.edges(data=True) if el[u] != "H" and el[v] != "H"}
     out = implicit_hydrogen(E.to_nx(gjson), set(pres))
     fails = []
-    keep = {n for n in g.nodes if el[n] != "H" or n in set(pres)}
+    keep = {n for n in g.nodes if el[n] != "H" or n in set(pres) or g.degree(n) == 0}       # a lone hydrogen is folded nowhere: it stays
     if set(out.nodes) != keep:
         fails.append(dict(clause="implicit-h-atoms", detail="atoms %r, expected %r (preserve %r)" % (sorted(out.nodes), sorted(keep), sorted(pres))))
         return fails
@@ -831,6 +831,10 @@ HAND_STR = [
     "[O:1].[O:2]=[O:3]>>[O:1][O:2][O:3]",
     # a charged and a neutral hydrogen in the same reaction centre
     "[NH3:1].[H+:2].[Cl:3][H:4].[OH-:5]>>[NH3+:1][H:2].[Cl-:3].[OH:5][H:4]",
+    # parentless hydrogens that do NOT react next to one that does (defect repaired by /repo 3ba7a77): lone proton, atom, hydride
+    "[H+:5].[CH3:1][O-:2].[H+:3]>>[H+:5].[CH3:1][O:2][H:3]",
+    "[H:5].[CH3:1][O-:2].[H+:3]>>[H:5].[CH3:1][O:2][H:3]",
+    "[H-:5].[CH3:1][O-:2].[H+:3].[H:6][H:7]>>[H-:5].[CH3:1][O:2][H:3].[H:6][H:7]",
 ]
 
 
@@ -873,6 +877,11 @@ def gen_str(rsmi_cases, rng, n_exph):
             cases.append(dict(kind="str-exph", rsmi=x, src=c.get("src")))
             cases.append(dict(kind="exph", rsmi=x, src=c.get("src")))
             k += 1
+            if k % 2 == 0:                                     # a parentless hydrogen species as a spectator on both sides
+                m = max(R.map_numbers(x)) + 1
+                sp = rng.choice(("[H+:%d]" % m, "[H:%d]" % m, "[H-:%d]" % m, "[H:%d][H:%d]" % (m, m + 1), "[H+:%d].[H-:%d]" % (m, m + 1)))
+                xa, xb = x.split(">>")
+                cases.append(dict(kind="str-exph-lone", rsmi=(sp + "." + xa if rng.random() < 0.5 else xa + "." + sp) + ">>" + xb + "." + sp, src=c.get("src")))
     for c in pool[:max(6, n_exph // 2)]:                       # an unmapped reagent on both sides / a few atoms unmapped: outside the
         a, b = c["rsmi"].split(">>")                           # property (not fully mapped), model and code must still agree (dropped)
         rg = rng.choice(("O", "CCO", "[Na+].[Cl-]", "c1ccccc1", "ClCCl", "CN(C)C=O"))
